@@ -107,6 +107,10 @@ example :
     recognised 0x01 = true ∧ (dasm a 0).2 = 3 ∧ (dispatch a).1.reg.pc = 3 ∧ (dasm a 0).1 = "01 34 12 LD BC,$1234" := by
   decide +kernel
 
+/-- the size is a function of the byte stored at the address and of nothing else: not of a pending request, not of
+    PC, not of what was executed or listed before -/
+theorem C15_size_of_byte (a : Arch) (address : UInt16) : (dasm a address).2 = dasmSize (a.bus.readByte address) := rfl
+
 /-- non-vacuity of the walk: LD BC,$1234 ; INC B ; NOP from address 0 -/
 example :
     let a : Arch := { bus := { mem := #[0x01, 0x34, 0x12, 0x04, 0x00, 0x00] } }
